@@ -1513,3 +1513,534 @@ Lemma tr_act st o : Tr (actor o) (sd st (actor o)) (fst (act st o)) (snd (act st
 Proof.
   destruct o; cbn [actor act]; [apply tr_submit | apply tr_submit | apply tr_recv | apply tr_timer].
 Qed.
+
+(* ====================================================================== *)
+(* 6. UpdateKeys returns only after the peer processed the KeyUpdate and    *)
+(*    its ACK was delivered                                                *)
+(* ====================================================================== *)
+
+Fixpoint ev_dones (evs : list event) : list (side * N) :=
+  match evs with [] => [] | EvDone s i :: t => (s, i) :: ev_dones t | _ :: t => ev_dones t end.
+
+Lemma ev_dones_app e1 e2 : ev_dones (e1 ++ e2) = ev_dones e1 ++ ev_dones e2.
+Proof. induction e1 as [|ev e1 IH]; [reflexivity|]. destruct ev; cbn [app ev_dones]; rewrite ?IH; reflexivity. Qed.
+
+Lemma ev_dones_in s id evs : In (EvDone s id) evs <-> In (s, id) (ev_dones evs).
+Proof.
+  induction evs as [|ev evs IH]; [tauto|]. destruct ev; cbn [In ev_dones]; rewrite IH;
+    try (split; [intros [H|H]; [discriminate | exact H] | intro H; now right]).
+  split; (intros [H|H]; [left; congruence | now right]).
+Qed.
+
+Lemma nd_start_ku me s req id : ev_dones (snd (start_ku me s req id)) = [].
+Proof. unfold start_ku. destruct (_ || _); [reflexivity|]. destruct id; reflexivity. Qed.
+
+Lemma nd_drain me q : forall s, ev_dones (snd (drain me s q)) = [].
+Proof.
+  induction q as [|c q IH]; intro s; cbn [drain]; [reflexivity|].
+  destruct c as [p|rq i].
+  - unfold emit_app, seal. destruct (max_seq48 <? w_seq s); cbn [fst snd].
+    + match goal with |- context [drain me ?y q] => specialize (IH y); destruct (drain me y q) end. exact IH.
+    + match goal with |- context [drain me ?y q] => specialize (IH y); destruct (drain me y q) end. cbn [snd] in *.
+      rewrite ev_dones_app, IH. reflexivity.
+  - destruct (pending s); [reflexivity|].
+    pose proof (nd_start_ku me s rq i) as Hs.
+    destruct (start_ku me s rq i) as [s1 e1]. cbn [snd] in Hs.
+    destruct (failed s1); [exact Hs|].
+    specialize (IH s1). destruct (drain me s1 q). cbn [snd] in *. rewrite ev_dones_app, Hs, IH. reflexivity.
+Qed.
+
+Lemma nd_recv_parked_all me l : forall s, ev_dones (snd (recv_parked_all me s l)) = [].
+Proof.
+  induction l as [|r0 l IH]; intro y; cbn [recv_parked_all]; [reflexivity|].
+  assert (H0 : ev_dones (snd (recv_parked me y r0)) = []).
+  { unfold recv_parked. destruct (open_rec y r0); try reflexivity.
+    destruct (check _ _ _); [|reflexivity]. destruct (r_kind r0); reflexivity. }
+  destruct (recv_parked me y r0) as [y1 e1]. specialize (IH y1).
+  destruct (recv_parked_all me y1 l). cbn [snd] in *. rewrite ev_dones_app, H0, IH. reflexivity.
+Qed.
+
+Lemma nd_send_ack me s l : ev_dones (snd (send_ack me s l)) = [].
+Proof. unfold send_ack, emit_ctl, seal. destruct (max_seq48 <? w_seq s); reflexivity. Qed.
+
+Lemma nd_on_ku me s e q m req : ev_dones (snd (on_ku me s e q m req)) = [].
+Proof.
+  unfold on_ku. destruct (m <? hs_recv s); [apply nd_send_ack|].
+  destruct (m =? hs_recv s); [|apply nd_send_ack].
+  destruct (negb _); [reflexivity|]. destruct (r_epoch s =? max_epoch); [reflexivity|].
+  assert (Hadv : ev_dones (snd (advance_read me s m req)) = []).
+  { unfold advance_read. destruct (r_gens s); [reflexivity|].
+    match goal with |- context [recv_parked_all me ?s1 ?l] =>
+      pose proof (nd_recv_parked_all me l s1) as Hp; destruct (recv_parked_all me s1 l) end. cbn [snd] in *.
+    cbn [ev_dones]. exact Hp. }
+  destruct (advance_read me s m req) as [s1 e1]. cbn [snd] in Hadv.
+  destruct (failed s1); [exact Hadv|].
+  destruct (max_msg <? hs_recv s1).
+  { cbn [snd]. rewrite ev_dones_app, Hadv. reflexivity. }
+  pose proof (nd_send_ack me s1 [(e, q)]) as Ha. destruct (send_ack me s1 [(e, q)]). cbn [snd] in *.
+  rewrite ev_dones_app, Hadv, Ha. reflexivity.
+Qed.
+
+Lemma nd_timer me s : ev_dones (snd (timer me s)) = [].
+Proof.
+  unfold timer. destruct (failed s); [reflexivity|]. destruct (pending s); [|reflexivity].
+  unfold emit_ctl, seal. destruct (max_seq48 <? w_seq s); reflexivity.
+Qed.
+
+Lemma nd_submit me s c : ev_dones (snd (submit me s c)) = [].
+Proof. unfold submit. destruct (failed s); [reflexivity | apply nd_drain]. Qed.
+
+(* a completion event can only come out of the ACK branch of [recv] *)
+Lemma recv_done me s r s0 id : In (EvDone s0 id) (snd (recv me s r)) ->
+  s0 = me /\ exists e l f, failed s = false /\ open_rec s r = Opened e /\ r_kind r = Ack l /\
+    pending s = Some f /\ acked s f l = true /\ f_id f = Some id.
+Proof.
+  rewrite ev_dones_in. unfold recv. destruct (failed s) eqn:Ef; [intros []|].
+  destruct (open_rec s r) as [| |e] eqn:Eo; [destruct (_ && _); intros [] | intros [] |].
+  destruct (negb _); [intros []|].
+  destruct (r_kind r) as [p|m req|l] eqn:Ek; [intros [] | |].
+  - pose proof (nd_on_ku me (mark s e (r_seq r)) e (r_seq r) m req) as N1.
+    destruct (on_ku me (mark s e (r_seq r)) e (r_seq r) m req) as [s2 e2]. cbn [snd] in N1.
+    destruct (failed s2); cbn [snd]; [rewrite N1; intros []|].
+    pose proof (nd_drain me (queue s2) s2) as N2. unfold run_queue.
+    destruct (drain me s2 (queue s2)). cbn [snd] in *. rewrite ev_dones_app, N1, N2. intros [].
+  - assert (Hq : forall s2, ev_dones (snd (run_queue me s2)) = []) by (intro; apply nd_drain).
+    unfold on_ack. cbn [pending mark].
+    destruct (pending s) as [f|] eqn:Ep.
+    2:{ cbn [fst snd failed mark]. rewrite Ef. specialize (Hq (mark s e (r_seq r))).
+        destruct (run_queue me (mark s e (r_seq r))). cbn [snd app] in *. rewrite Hq. intros []. }
+    assert (Hacked : acked (mark s e (r_seq r)) f l = acked s f l) by reflexivity.
+    rewrite Hacked. destruct (acked s f l) eqn:Ea.
+    2:{ cbn [fst snd failed mark]. rewrite Ef. specialize (Hq (mark s e (r_seq r))).
+        destruct (run_queue me (mark s e (r_seq r))). cbn [snd app] in *. rewrite Hq. intros []. }
+    unfold commit. cbn [fst snd failed mark]. rewrite Ef.
+    match goal with |- context [run_queue me ?s2] => specialize (Hq s2); destruct (run_queue me s2) end.
+    cbn [snd] in *. rewrite ev_dones_app, Hq, app_nil_r. cbn [ev_dones].
+    destruct (f_id f) as [i|] eqn:Ei; cbn [ev_dones]; [|intros []].
+    intros [Heq | []]. inversion Heq; subst. split; [reflexivity|].
+    exists e, l, f. repeat split; assumption.
+Qed.
+
+Section Completion.
+Variable W : nat.
+Variable b : side -> N.
+Hypothesis HW : N.of_nat W <= 32767.
+
+Theorem done_after_ack st o s id :
+  GInv W b st -> authentic_op st o -> In (EvDone s id) (snd (step st o)) ->
+  exists r l f q,
+    o = OpDeliver s r /\ r_kind r = Ack l /\ In r (map snd (net st (other s))) /\
+    pending (sd st s) = Some f /\ f_id f = Some id /\
+    In q (f_seqs f) /\ In (w_epoch (sd st s), q) l /\
+    b s <= f_msg f < hs_recv (sd st (other s)) /\ r_epoch (sd st (other s)) = w_epoch (sd st s) + 1.
+Proof.
+  intros HG Ha Hin. rewrite step_act, put_evs in Hin.
+  destruct o as [s1 req i|s1 p|to r|s1]; cbn [actor act] in Hin.
+  - apply ev_dones_in in Hin. rewrite nd_submit in Hin. destruct Hin.
+  - apply ev_dones_in in Hin. rewrite nd_submit in Hin. destruct Hin.
+  - apply recv_done in Hin. destruct Hin as [-> (e & l & f & Hf & Ho & Hk & Hp & Hac & Hid)].
+    cbn [authentic_op] in Ha. pose proof Ha as Ha'. apply in_map_iff in Ha'. destruct Ha' as [[e0 r0] [Hr Hnet]].
+    cbn [snd] in Hr. subst r0.
+    destruct (GInv_side W b st to HG) as [H1 _].
+    destruct (acked_processed W b HW to _ _ _ _ f e0 r l H1 Hp Hnet Hk Hac) as (q & Q1 & Q2 & Q3 & Q4 & Q5).
+    exists r, l, f, q. repeat split; try assumption.
+  - apply ev_dones_in in Hin. rewrite nd_timer in Hin. destruct Hin.
+Qed.
+
+(* trace coherence: processed KeyUpdate messages and started UpdateKeys calls are in the event log *)
+Definition TCoh (st : gst) (evs : list event) : Prop :=
+  (forall X m, b X <= m < hs_recv (sd st (other X)) -> In (EvKuIn (other X) m) evs) /\
+  (forall X f id, pending (sd st X) = Some f -> f_id f = Some id -> In (EvStart X id (f_msg f)) evs).
+
+Lemma step_TCoh st o evs : TCoh st evs -> TCoh (fst (step st o)) (evs ++ snd (step st o)).
+Proof.
+  intros [T1 T2]. rewrite step_act, put_evs. pose proof (tr_act st o) as [[A1 A2] B C].
+  set (me := actor o) in *. split.
+  - intros X m Hm. apply in_or_app.
+    destruct (side_eqb (other X) me) eqn:E.
+    + apply side_eqb_eq in E. rewrite E in *. rewrite put_sd_me in Hm.
+      destruct (N.lt_ge_cases m (hs_recv (sd st me))) as [Hlt | Hge].
+      * left. rewrite <- E. apply T1. rewrite E. lia.
+      * right. apply A2. lia.
+    + left. apply T1.
+      assert (Hx : other X = other me).
+      { destruct X, me; cbn in *; try discriminate; reflexivity. }
+      rewrite Hx in *. rewrite put_sd_other in Hm. exact Hm.
+  - intros X f id Hp Hid. apply in_or_app.
+    destruct (side_eqb X me) eqn:E.
+    + apply side_eqb_eq in E. subst X. rewrite put_sd_me in Hp.
+      destruct (B f id Hp Hid) as [(f0 & F1 & F2 & F3) | Hin]; [|now right].
+      left. rewrite <- F3. now apply T2.
+    + left. apply T2; [|exact Hid].
+      assert (Hx : X = other me).
+      { destruct X, me; cbn in *; try discriminate; reflexivity. }
+      rewrite Hx in *. rewrite put_sd_other in Hp. exact Hp.
+Qed.
+
+Lemma exec_TCoh ops : forall st evs, TCoh st evs -> TCoh (fst (exec st ops)) (evs ++ snd (exec st ops)).
+Proof.
+  induction ops as [|o ops IH]; intros st evs HT; cbn [exec].
+  - cbn [fst snd]. now rewrite app_nil_r.
+  - pose proof (step_TCoh st o evs HT) as H1. destruct (step st o) as [st1 e1]. cbn [fst snd] in H1.
+    specialize (IH st1 _ H1). destruct (exec st1 ops) as [st2 e2]. cbn [fst snd] in *.
+    now rewrite app_assoc.
+Qed.
+
+Lemma authentic_app ops1 : forall st ops2,
+  authentic st (ops1 ++ ops2) <-> authentic st ops1 /\ authentic (fst (exec st ops1)) ops2.
+Proof.
+  induction ops1 as [|o ops1 IH]; intros st ops2; cbn [app authentic exec].
+  - cbn [fst]. tauto.
+  - rewrite IH. destruct (step st o) as [st1 e1]. cbn [fst]. destruct (exec st1 ops1) as [st2 e2]. cbn [fst]. tauto.
+Qed.
+
+(* trace form: when the step [o] after the prefix [ops1] makes UpdateKeys call [id] of [s] return,
+   then [o] is the delivery to [s] of an ACK the peer really sent, and strictly earlier in the run
+   the call's KeyUpdate (message m) was sent and the peer processed message m *)
+Theorem update_returns_after_ack st0 ops1 o s id :
+  GInv W b st0 -> TCoh st0 [] -> authentic st0 (ops1 ++ [o]) ->
+  In (EvDone s id) (snd (step (fst (exec st0 ops1)) o)) ->
+  exists m r l,
+    In (EvStart s id m) (snd (exec st0 ops1)) /\ In (EvKuIn (other s) m) (snd (exec st0 ops1)) /\
+    o = OpDeliver s r /\ r_kind r = Ack l /\ In r (map snd (net (fst (exec st0 ops1)) (other s))).
+Proof.
+  intros HG HT Ha Hin. apply authentic_app in Ha. destruct Ha as [Ha1 [Ha2 _]].
+  pose proof (exec_GInv W b HW ops1 st0 HG Ha1) as HG1.
+  pose proof (exec_TCoh ops1 st0 [] HT) as [T1 T2]. cbn [app] in T1, T2.
+  destruct (done_after_ack _ o s id HG1 Ha2 Hin) as (r & l & f & q & E1 & E2 & E3 & E4 & E5 & _ & _ & E8 & _).
+  exists (f_msg f), r, l. repeat split; try assumption.
+  - now apply T2.
+  - apply T1. exact E8.
+Qed.
+
+End Completion.
+
+(* ====================================================================== *)
+(* 7. the initial state satisfies the invariant                            *)
+(* ====================================================================== *)
+
+Lemma seqs_at_map3 e l : seqs_at e (map (fun q => (3, q)) l) = if e =? 3 then l else [].
+Proof.
+  unfold seqs_at. induction l as [|q l IH]; [now destruct (e =? 3)|].
+  cbn [map filter fst]. rewrite (N.eqb_sym 3 e). destruct (e =? 3); cbn [map snd]; [now rewrite IH | exact IH].
+Qed.
+
+Lemma init_DInv c X : N.of_nat (c_window c) <= 32767 ->
+  DInv (c_window c) (c_base c) X (init_side c X) [] (init_side c (other X)) [].
+Proof.
+  intro HW.
+  assert (M1 : 0 < max_seq64) by (unfold max_seq64; lia).
+  assert (M2 : N.of_nat (c_window c) <= max_seq64) by (unfold max_seq64; lia).
+  pose proof (run_inv (c_window c) max_seq64 M1 M2 (c_pre c (other X)) (win_init (c_window c)) []
+                      (inv_init (c_window c)) (NoDup_nil N)) as HR.
+  cbn [win_init latest] in HR. specialize (HR ltac:(lia)).
+  constructor; cbn [init_side w_epoch w_sec w_seq hs_send pending r_epoch r_gens hs_recv wins seen got futq].
+  - unfold max_epoch. lia.
+  - reflexivity.
+  - lia.
+  - intros f Hf. discriminate.
+  - intros e r [].
+  - constructor.
+  - unfold max_epoch. lia.
+  - now rewrite other_other.
+  - rewrite other_other. lia.
+  - lia.
+  - intro; lia.
+  - intros e r l [].
+  - intro e. rewrite seqs_at_map3.
+    destruct (run max_seq64 (win_init (c_window c)) (c_pre c (other X))) as [s' acc]. cbn [fst snd].
+    destruct HR as (HI & Hl & _). rewrite app_nil_r in HI.
+    destruct (e =? 3); [split; assumption|].
+    split; [apply inv_init | cbn; unfold max_seq64; lia].
+  - destruct (run max_seq64 (win_init (c_window c)) (c_pre c (other X))) as [s' acc]. cbn [snd].
+    destruct HR as (_ & _ & Hnd). rewrite app_nil_r in Hnd.
+    clear -Hnd. induction Hnd as [|x l Hx _ IH]; cbn [map]; constructor; [|exact IH].
+    intro Hin. apply Hx. apply in_map_iff in Hin. destruct Hin as [y [Hy Hin]]. inversion Hy. now subst.
+  - intros e q p [].
+  - constructor.
+  - reflexivity.
+Qed.
+
+Theorem init_GInv c : N.of_nat (c_window c) <= 32767 -> GInv (c_window c) (c_base c) (init c).
+Proof.
+  intro HW. unfold GInv, PInv. cbn [init sd net other]. split.
+  - exact (init_DInv c A HW).
+  - exact (init_DInv c B HW).
+Qed.
+
+Lemma init_TCoh c : TCoh (c_base c) (init c) [].
+Proof.
+  split.
+  - intros X m Hm. cbn [init sd init_side hs_recv] in Hm. rewrite other_other in Hm. lia.
+  - intros X f id Hp. cbn [init sd init_side pending] in Hp. discriminate.
+Qed.
+
+(* ====================================================================== *)
+(* 8. Read returns exactly the EvRead events; sealed payloads were written  *)
+(* ====================================================================== *)
+
+Fixpoint reads_of (s : side) (evs : list event) : list N :=
+  match evs with
+  | [] => []
+  | EvRead s' p :: t => if side_eqb s' s then p :: reads_of s t else reads_of s t
+  | _ :: t => reads_of s t
+  end.
+
+Lemma reads_of_app s e1 e2 : reads_of s (e1 ++ e2) = reads_of s e1 ++ reads_of s e2.
+Proof.
+  induction e1 as [|ev e1 IH]; [reflexivity|]. destruct ev; cbn [app reads_of]; rewrite ?IH; try reflexivity.
+  destruct (side_eqb s0 s); [now rewrite <- app_comm_cons | reflexivity].
+Qed.
+
+Lemma reads_of_mine me evs : Forall (fun ev => ev_side ev = me) evs -> reads_of me evs = ev_reads evs.
+Proof.
+  induction 1 as [|ev evs Hev _ IH]; [reflexivity|]. destruct ev; cbn [reads_of ev_reads]; try exact IH.
+  cbn in Hev. subst s. rewrite side_eqb_refl. now rewrite IH.
+Qed.
+
+Lemma reads_of_foreign me x evs : Forall (fun ev => ev_side ev = me) evs -> x <> me -> reads_of x evs = [].
+Proof.
+  intros F Hne. induction F as [|ev evs Hev _ IH]; [reflexivity|]. destruct ev; cbn [reads_of]; try exact IH.
+  cbn in Hev. subst s. destruct (side_eqb me x) eqn:E; [apply side_eqb_eq in E; congruence | exact IH].
+Qed.
+
+Theorem step_reads st o s :
+  reads (sd (fst (step st o)) s) = rev (reads_of s (snd (step st o))) ++ reads (sd st s).
+Proof.
+  rewrite step_act, put_evs. pose proof (frame_act st o) as [_ F]. pose proof (tr_act st o) as [_ _ C].
+  destruct (side_eqb s (actor o)) eqn:E.
+  - apply side_eqb_eq in E. subst s. rewrite put_sd_me, (reads_of_mine _ _ F). exact C.
+  - assert (Hne : s <> actor o) by (intro; subst; rewrite side_eqb_refl in E; discriminate).
+    assert (Hs : s = other (actor o)) by (destruct s, (actor o); try reflexivity; congruence).
+    rewrite (reads_of_foreign _ _ _ F Hne). rewrite Hs. now rewrite put_sd_other.
+Qed.
+
+Theorem exec_reads ops : forall st s,
+  reads (sd (fst (exec st ops)) s) = rev (reads_of s (snd (exec st ops))) ++ reads (sd st s).
+Proof.
+  induction ops as [|o ops IH]; intros st s; cbn [exec]; [reflexivity|].
+  pose proof (step_reads st o s) as H1. destruct (step st o) as [st1 e1]. cbn [fst snd] in H1.
+  specialize (IH st1 s). destruct (exec st1 ops) as [st2 e2]. cbn [fst snd] in *.
+  rewrite IH, H1, reads_of_app, rev_app_distr, app_assoc. reflexivity.
+Qed.
+
+(* application records only come out of the command queue, which only Write fills *)
+Definition Qm (me : side) (q : list cmd) (s' : sidest) (evs : list event) : Prop :=
+  forall p, (cnt (sealed (sent_by me evs)) p + cnt (qapps (queue s')) p <= cnt (qapps q) p)%nat.
+
+Lemma qm_same me s s' evs : queue s' = queue s -> sealed (sent_by me evs) = [] -> Qm me (queue s) s' evs.
+Proof. intros H1 H2 p. rewrite H1, H2. cbn. lia. Qed.
+
+Lemma qm_trans me q s1 e1 s2 e2 : Qm me q s1 e1 -> Qm me (queue s1) s2 e2 -> Qm me q s2 (e1 ++ e2).
+Proof.
+  intros H1 H2 p. specialize (H1 p). specialize (H2 p). rewrite sent_by_app, sealed_app, cnt_app. lia.
+Qed.
+
+Lemma qapps_insert_response q : qapps (insert_response q) = qapps q.
+Proof.
+  induction q as [|c q IH]; [reflexivity|]. destruct c as [p|req id]; cbn [insert_response]; [reflexivity|].
+  cbn [qapps flat_map app] in *. exact IH.
+Qed.
+
+Lemma sealed_sent_start_ku me s req id : sealed (sent_by me (snd (start_ku me s req id))) = [] /\
+  queue (fst (start_ku me s req id)) = queue s.
+Proof.
+  unfold start_ku. destruct (_ || _); cbn [fst snd]; [split; reflexivity|].
+  split; [|reflexivity]. cbn [sent_by]. rewrite side_eqb_refl. destruct id; reflexivity.
+Qed.
+
+Lemma qm_drain me q : forall s, Qm me q (fst (drain me s q)) (snd (drain me s q)).
+Proof.
+  induction q as [|c q IH]; intros s p; cbn [drain].
+  - cbn. lia.
+  - destruct c as [p'|req id].
+    + unfold emit_app, seal. destruct (max_seq48 <? w_seq s); cbn [fst snd].
+      * match goal with |- context [drain me ?y q] => specialize (IH y p); destruct (drain me y q) as [s2 e2] end.
+        cbn [fst snd app] in *. cbn [qapps flat_map]. fold (qapps q). rewrite cnt_app. lia.
+      * match goal with |- context [drain me ?y q] => specialize (IH y p); destruct (drain me y q) as [s2 e2] end.
+        cbn [fst snd] in *. rewrite sent_by_app, sealed_app, cnt_app. cbn [sent_by]. rewrite side_eqb_refl.
+        cbn [app sealed flat_map snd r_kind]. cbn [qapps flat_map]. fold (qapps q). rewrite cnt_app. lia.
+    + destruct (pending s).
+      * cbn [fst snd sent_by sealed flat_map queue set_queue]. unfold cnt. cbn [count_occ]. lia.
+      * destruct (sealed_sent_start_ku me s req id) as [H1 H2].
+        destruct (start_ku me s req id) as [s1 e1]. cbn [fst snd] in *.
+        destruct (failed s1).
+        -- cbn [fst snd queue set_queue]. rewrite H1. cbn [qapps flat_map app]. fold (qapps q). cbn. lia.
+        -- specialize (IH s1 p). destruct (drain me s1 q) as [s2 e2]. cbn [fst snd] in *.
+           rewrite sent_by_app, sealed_app, cnt_app, H1. cbn [qapps flat_map app]. fold (qapps q). cbn. lia.
+Qed.
+
+Lemma qm_ctl me s k : (forall p, k <> App p) ->
+  queue (fst (fst (emit_ctl me s k))) = queue s /\ sealed (sent_by me (snd (fst (emit_ctl me s k)))) = [].
+Proof.
+  intro Hk. unfold emit_ctl, seal. destruct (max_seq48 <? w_seq s); cbn [fst snd]; [split; reflexivity|].
+  split; [reflexivity|]. cbn [sent_by]. rewrite side_eqb_refl. cbn [app sealed flat_map snd r_kind].
+  destruct k; try reflexivity. exfalso. now apply (Hk p).
+Qed.
+
+Lemma qm_recv_parked_all me l : forall s,
+  queue (fst (recv_parked_all me s l)) = queue s /\ sealed (sent_by me (snd (recv_parked_all me s l))) = [].
+Proof.
+  induction l as [|r l IH]; intro s; cbn [recv_parked_all]; [split; reflexivity|].
+  assert (H0 : queue (fst (recv_parked me s r)) = queue s /\ sent_by me (snd (recv_parked me s r)) = []).
+  { unfold recv_parked. destruct (open_rec s r); try (split; reflexivity).
+    destruct (check _ _ _); [|split; reflexivity]. destruct (r_kind r); split; reflexivity. }
+  destruct (recv_parked me s r) as [s1 e1]. cbn [fst snd] in H0. destruct H0 as [H1 H2].
+  specialize (IH s1). destruct (recv_parked_all me s1 l) as [s2 e2]. cbn [fst snd] in *. destruct IH as [I1 I2].
+  split; [congruence|]. rewrite sent_by_app, sealed_app, I2, H2. reflexivity.
+Qed.
+
+Lemma qm_on_ku me s e q m req : Qm me (queue s) (fst (on_ku me s e q m req)) (snd (on_ku me s e q m req)).
+Proof.
+  assert (Hack : forall s' l, Qm me (queue s') (fst (send_ack me s' l)) (snd (send_ack me s' l))).
+  { intros s' l. unfold send_ack. destruct (qm_ctl me s' (Ack l)) as [H1 H2]; [intros p; discriminate|].
+    destruct (emit_ctl me s' (Ack l)) as [[s1 evs] o]. cbn [fst snd] in *. now apply qm_same. }
+  unfold on_ku. destruct (m <? hs_recv s); [apply Hack|].
+  destruct (m =? hs_recv s); [|apply Hack].
+  destruct (negb _); [cbn [fst snd]; apply qm_same; reflexivity|].
+  destruct (r_epoch s =? max_epoch); [cbn [fst snd]; apply qm_same; reflexivity|].
+  assert (Hadv : Qm me (queue s) (fst (advance_read me s m req)) (snd (advance_read me s m req))).
+  { unfold advance_read. destruct (r_gens s); [cbn [fst snd]; apply qm_same; reflexivity|].
+    match goal with |- context [recv_parked_all me ?s1 ?l] =>
+      destruct (qm_recv_parked_all me l s1) as [H1 H2]; destruct (recv_parked_all me s1 l) as [s2 e2] end.
+    cbn [fst snd queue] in *. intro p. cbn [sent_by]. rewrite H2, H1.
+    destruct req; rewrite ?qapps_insert_response; cbn; lia. }
+  destruct (advance_read me s m req) as [s1 e1]. cbn [fst snd] in Hadv.
+  destruct (failed s1); [exact Hadv|].
+  destruct (max_msg <? hs_recv s1).
+  { cbn [fst snd]. intro p. specialize (Hadv p). rewrite sent_by_app, sealed_app, cnt_app. cbn [sent_by sealed flat_map queue set_failed].
+    cbn. lia. }
+  specialize (Hack s1 [(e, q)]). destruct (send_ack me s1 [(e, q)]) as [s2 e2]. cbn [fst snd] in *.
+  eapply qm_trans; eassumption.
+Qed.
+
+Lemma qm_recv me s r : Qm me (queue s) (fst (recv me s r)) (snd (recv me s r)).
+Proof.
+  unfold recv. destruct (failed s); [apply qm_same; reflexivity|].
+  destruct (open_rec s r) as [| |e].
+  - destruct (_ && _); cbn [fst snd]; apply qm_same; reflexivity.
+  - apply qm_same; reflexivity.
+  - destruct (negb _); [apply qm_same; reflexivity|].
+    destruct (r_kind r) as [p|m req|l].
+    + cbn [fst snd]. apply qm_same; reflexivity.
+    + pose proof (qm_on_ku me (mark s e (r_seq r)) e (r_seq r) m req) as F1.
+      destruct (on_ku me (mark s e (r_seq r)) e (r_seq r) m req) as [s2 e2]. cbn [fst snd queue mark] in F1.
+      destruct (failed s2); [exact F1|].
+      pose proof (qm_drain me (queue s2) s2) as F2. unfold run_queue.
+      destruct (drain me s2 (queue s2)) as [s3 e3]. cbn [fst snd] in *.
+      eapply qm_trans; eassumption.
+    + assert (F1 : Qm me (queue s) (fst (on_ack me (mark s e (r_seq r)) l)) (snd (on_ack me (mark s e (r_seq r)) l))).
+      { unfold on_ack. destruct (pending _) as [f|]; [|apply qm_same; reflexivity].
+        destruct (acked _ f l); [|apply qm_same; reflexivity].
+        unfold commit. cbn [fst snd]. apply qm_same; [reflexivity|]. cbn [sent_by]. destruct (f_id f); reflexivity. }
+      destruct (on_ack me (mark s e (r_seq r)) l) as [s2 e2]. cbn [fst snd] in F1.
+      destruct (failed s2); [exact F1|].
+      pose proof (qm_drain me (queue s2) s2) as F2. unfold run_queue.
+      destruct (drain me s2 (queue s2)) as [s3 e3]. cbn [fst snd] in *.
+      eapply qm_trans; eassumption.
+Qed.
+
+Lemma qm_timer me s : Qm me (queue s) (fst (timer me s)) (snd (timer me s)).
+Proof.
+  unfold timer. destruct (failed s); [apply qm_same; reflexivity|].
+  destruct (pending s) as [f|]; [|apply qm_same; reflexivity].
+  destruct (qm_ctl me s (KU (f_msg f) (f_req f))) as [H1 H2]; [intros p; discriminate|].
+  destruct (emit_ctl me s (KU (f_msg f) (f_req f))) as [[s1 evs] [q|]]; cbn [fst snd] in *; now apply qm_same.
+Qed.
+
+Fixpoint writes_of (s : side) (ops : list op) : list N :=
+  match ops with
+  | [] => []
+  | OpWrite s' p :: t => if side_eqb s' s then p :: writes_of s t else writes_of s t
+  | _ :: t => writes_of s t
+  end.
+
+Definition written_op (s : side) (o : op) : list N := writes_of s [o].
+
+Lemma step_sealed st o s p :
+  (cnt (sealed (net (fst (step st o)) s)) p + cnt (qapps (queue (sd (fst (step st o)) s))) p <=
+   cnt (sealed (net st s)) p + cnt (qapps (queue (sd st s))) p + cnt (written_op s o) p)%nat.
+Proof.
+  rewrite step_act.
+  destruct (side_eqb s (actor o)) eqn:E.
+  2:{ assert (Hs : s = other (actor o)) by (destruct s, (actor o); cbn in E; try discriminate; reflexivity).
+      rewrite Hs. rewrite put_sd_other, put_net_other. lia. }
+  apply side_eqb_eq in E. subst s. rewrite put_sd_me, put_net_me, sealed_app, cnt_app.
+  destruct o as [s req id|s p'|to r|s]; cbn [actor act written_op writes_of].
+  - unfold submit. destruct (failed (sd st s)); [cbn; lia|].
+    pose proof (qm_drain s (queue (sd st s) ++ [CKU req (Some id)]) (sd st s) p) as H.
+    rewrite qapps_app, cnt_app in H. cbn in H. cbn. lia.
+  - rewrite side_eqb_refl. unfold submit. destruct (failed (sd st s)); [cbn; lia|].
+    pose proof (qm_drain s (queue (sd st s) ++ [CApp p']) (sd st s) p) as H.
+    rewrite qapps_app, cnt_app in H. cbn [qapps flat_map app] in H. lia.
+  - pose proof (qm_recv to (sd st to) r p) as H. cbn. lia.
+  - pose proof (qm_timer s (sd st s) p) as H. cbn. lia.
+Qed.
+
+Lemma writes_of_cons s o ops : writes_of s (o :: ops) = written_op s o ++ writes_of s ops.
+Proof. unfold written_op. destruct o; cbn [writes_of]; try reflexivity. destruct (side_eqb s0 s); reflexivity. Qed.
+
+Theorem exec_sealed ops : forall st s p,
+  (cnt (sealed (net (fst (exec st ops)) s)) p + cnt (qapps (queue (sd (fst (exec st ops)) s))) p <=
+   cnt (sealed (net st s)) p + cnt (qapps (queue (sd st s))) p + cnt (writes_of s ops) p)%nat.
+Proof.
+  induction ops as [|o ops IH]; intros st s p; cbn [exec]; [cbn; lia|].
+  pose proof (step_sealed st o s p) as H1. destruct (step st o) as [st1 e1]. cbn [fst] in H1.
+  specialize (IH st1 s p). destruct (exec st1 ops) as [st2 e2]. cbn [fst] in *.
+  rewrite writes_of_cons, cnt_app. lia.
+Qed.
+
+(* ====================================================================== *)
+(* 9. the statements for runs from the initial state                       *)
+(* ====================================================================== *)
+
+Lemma cnt_rev l p : cnt (rev l) p = cnt l p.
+Proof.
+  induction l as [|x l IH]; [reflexivity|]. cbn [rev]. rewrite cnt_app, IH. unfold cnt. cbn [count_occ].
+  destruct (N.eq_dec x p); lia.
+Qed.
+
+Section FromInit.
+Variable c : config.
+Hypothesis HW : N.of_nat (c_window c) <= 32767.
+
+Lemma run_GInv ops : authentic (init c) ops -> GInv (c_window c) (c_base c) (fst (exec (init c) ops)).
+Proof. intro Ha. apply exec_GInv; [exact HW | now apply init_GInv | exact Ha]. Qed.
+
+(* every payload is handed to Read at most as often as the peer's application wrote it *)
+Theorem run_at_most_once ops X p : authentic (init c) ops ->
+  (cnt (reads_of (other X) (snd (exec (init c) ops))) p <= cnt (writes_of X ops) p)%nat.
+Proof.
+  intro Ha. pose proof (run_GInv ops Ha) as HG.
+  pose proof (at_most_once_unmodified _ _ _ X HG p) as H1.
+  pose proof (exec_reads ops (init c) (other X)) as H2.
+  pose proof (exec_sealed ops (init c) X p) as H3.
+  assert (H0 : reads (sd (init c) (other X)) = []) by reflexivity.
+  rewrite H0, app_nil_r in H2. fold (cnt (reads (sd (fst (exec (init c) ops)) (other X))) p) in H1.
+  rewrite H2, cnt_rev in H1. fold (cnt (sealed (net (fst (exec (init c) ops)) X)) p) in H1.
+  cbn [init net sd init_side queue sealed flat_map qapps] in H3. unfold cnt in *. cbn [count_occ] in H3. lia.
+Qed.
+
+Theorem run_update_returns_after_ack ops1 o s id :
+  authentic (init c) (ops1 ++ [o]) ->
+  In (EvDone s id) (snd (step (fst (exec (init c) ops1)) o)) ->
+  exists m r l,
+    In (EvStart s id m) (snd (exec (init c) ops1)) /\ In (EvKuIn (other s) m) (snd (exec (init c) ops1)) /\
+    o = OpDeliver s r /\ r_kind r = Ack l /\ In r (map snd (net (fst (exec (init c) ops1)) (other s))).
+Proof.
+  intros Ha Hin. eapply update_returns_after_ack; try eassumption.
+  - now apply init_GInv.
+  - apply init_TCoh.
+Qed.
+
+End FromInit.
+
+(* the receiver's authorised epoch is the sender's epoch, or one ahead while a KeyUpdate is in flight *)
+Theorem epochs_in_step W b st X : GInv W b st ->
+  w_epoch (sd st X) <= r_epoch (sd st (other X)) <= w_epoch (sd st X) + 1 /\
+  (r_epoch (sd st (other X)) = w_epoch (sd st X) + 1 -> pending (sd st X) <> None) /\
+  futq (sd st (other X)) = [].
+Proof.
+  intro HG. destruct (GInv_side W b st X HG) as [H1 _].
+  split; [exact (d_epochs _ _ _ _ _ _ _ H1)|]. split; [exact (d_ahead _ _ _ _ _ _ _ H1) | exact (d_futq _ _ _ _ _ _ _ H1)].
+Qed.
